@@ -1418,6 +1418,122 @@ def half_rules(ctx):
         ctx.check(ok, R + '.half/row-col-order', 'T-CARRY', tq.name, 'rows / columns are not filled from (i, j) in this order: %s' % push_roots, tq.site(bi))
 
 
+# =============================================================================== C19.convert.terms
+# "listed coefficients reach the Function unfiltered": between the parsed table and the terms nothing may drop or change an entry depending on
+# its value.  What counts as a possible value-dependent drop (drop_evidence):
+DROP_CALLS = ('filter', 'filter_map', 'retain', 'retain_mut', 'take_while', 'skip_while', 'map_while', 'dedup', 'dedup_by', 'dedup_by_key', 'step_by', 'take', 'skip',
+              'remove', 'swap_remove', 'pop', 'truncate', 'drain', 'clear', 'remove_entry', 'pop_first', 'pop_last', 'split_off')
+# a call whose callee is chosen by the *result type* (trait dispatch the caller's MIR does not show): call item -> impl item looked up for the type
+RESULT_TYPE_DISPATCH = {'collect': 'from_iter', 'from_iter': 'from_iter', 'into': 'from', 'from': 'from', 'sum': 'sum', 'product': 'product', 'try_into': 'try_from', 'extend': 'extend'}
+
+
+def crate_callees(ctx, body, c):
+    """crate bodies a call may run: the resolved callee, and for RESULT_TYPE_DISPATCH the impls of the crate type the call produces
+    (`it.collect::<v1::Linear>()` runs `<v1::Linear as FromIterator<_>>::from_iter`, i.e. `Linear::new`)"""
+    out = []
+    cb = ctx.F.bodies.get(c.path) or ctx.F.bodies.get(c.name)
+    if cb is not None and cb.kind in ('fn', 'closure'): out.append(cb)
+    want = RESULT_TYPE_DISPATCH.get(c.item)
+    if want and cb is None:
+        tys = {re.sub(r"^&('\w+ )?(mut )?", '', body.locals[c.dst['l']]).strip()}
+        if c.item == 'extend' and c.args and c.args[0]['k'] in ('copy', 'move'): tys.add(re.sub(r"^&('\w+ )?(mut )?", '', body.locals[c.args[0]['pl']['l']]).strip())
+        for ty in tys:
+            if ty.startswith('std::') or ty.startswith('core::') or ty.startswith('alloc::') or re.match(r'^([\[\(]|(f32|f64|bool|char|str|[iu](8|16|32|64|128|size))$)', ty): continue
+            out += [b for b in ctx.F.bodies.values() if b.kind == 'fn' and b.hdr.get('item') == want and (b.hdr.get('self') or '').replace(' ', '') == ty.replace(' ', '')]
+    # functions handed over as values: `iter.fold(zero, Add::add)`, `.map(helper)`
+    for a in c.args:
+        if a['k'] != 'const': continue
+        for key in (a.get('fnp'), a.get('v')):
+            fb = ctx.F.bodies.get(key) if key else None
+            if fb is not None and fb.kind in ('fn', 'closure'): out.append(fb)
+        m = re.match(r'^<(.+) as ([^<>]+(?:<.*>)?)>::(\w+)$', (a.get('v') or '').strip())
+        if m:
+            ty, tr, it = m.group(1).replace(' ', ''), re.sub(r'<.*>$', '', m.group(2)), m.group(3)
+            out += [b for b in ctx.F.bodies.values() if b.kind == 'fn' and b.hdr.get('item') == it and (b.hdr.get('self') or '').replace(' ', '') == ty and (b.hdr.get('trait') or '') == tr]
+    return [b for b in out if not is_derive_body(b)]
+
+
+def drop_evidence(ctx, body, own=True, depth=7, _seen=None, cmp=True, skip_own=False):
+    """places where an element could be dropped depending on its value: in `body` itself the thinning / removing calls (DROP_CALLS; a filter
+    spliced into a loop by the normal form shows as a pass without the push and is decided by the every-entry rules); in the crate
+    functions it hands the entries to, also any f64 comparison (`if v.abs() <= f64::EPSILON { remove }` in a normalising constructor)."""
+    _seen = _seen if _seen is not None else set()
+    if body.name in _seen: return []
+    _seen.add(body.name)
+    out = []
+    for c in body.calls:
+        if c.term.get('synthetic') or (own and skip_own): continue
+        if c.item in DROP_CALLS and re.search(r'Iterator|Vec|HashMap|BTreeMap|HashSet|BTreeSet|VecDeque|slice', c.name): out.append('%s: %s' % (body.site(c.bb), c.item))
+    if not own and cmp:
+        for bi, st in float_cmp_sites(body): out.append('%s: f64 comparison %s' % (body.site(bi), st['rv']['op']))
+        for c in body.calls:
+            if c.item in ('lt', 'le', 'gt', 'ge', 'partial_cmp', 'total_cmp') and 'f64' in c.name: out.append('%s: f64 comparison %s' % (body.site(c.bb), c.item))
+    if depth > 0:
+        for bi, st, cl in body.closures_created():
+            cb = ctx.F.bodies.get(cl)
+            if cb is not None: out += drop_evidence(ctx, cb, own, depth - 1, _seen, cmp, skip_own)
+        for c in body.calls:
+            for cb in crate_callees(ctx, body, c): out += drop_evidence(ctx, cb, False, depth - 1, _seen, cmp, skip_own)
+    return out
+
+
+def terms_rules(ctx):
+    R = 'C19.convert.terms'
+    tl = ctx.free_fn(R + '/anchor', 'qplib::convert::to_linear')
+    if tl is not None:
+        ev = drop_evidence(ctx, tl)
+        ctx.check(not ev, R + '/linear/unfiltered', 'T-LOOPMUST', tl.name, 'a listed b entry can be dropped depending on its value between the table and the terms: %s' % '; '.join(ev[:4]), tl.site(), evidence=ev[:8])
+        aggs = find_aggregates(tl, 'v1::Linear')
+        terms = find_aggregates(tl, 'v1::linear::Term')
+        if aggs:
+            probs = []
+            for bi, st in aggs:
+                root = T.access_path(tl, agg_field_operand(st, 'terms'), transparent=T.TRANSPARENT_NOCLONE)[1]
+                ps = [c for c in tl.calls if c.item == 'push' and T.access_path(tl, c.args[0], transparent=T.TRANSPARENT_NOCLONE)[1] == root]
+                los = [lo for lo in T.for_loops(tl) if any(c.bb in lo[4] for c in ps)]
+                if not ps or not los: probs.append('Linear.terms is not filled in a loop'); continue
+                for lo in los:
+                    if not T.must_pass(tl, lo[2], {lo[1]}, {c.bb for c in ps if c.bb in lo[4]}): probs.append('a pass of the loop can skip the push of the term')
+                    si = ctx.S.slice_operand(tl, lo[0].args[0])
+                    if 1 not in si.params: probs.append('the loop filling Linear.terms does not run over the coefficient map')
+                    restr = sorted({x.item for x in si.call_objs if x.item in RESTRICTING and 'Iterator' in (x.trait or '')})
+                    if restr: probs.append('the loop filling Linear.terms is restricted by %s' % restr)
+            ctx.check(not probs, R + '/linear/every-entry', 'T-LOOPMUST', tl.name, 'a listed b entry may give no term: %s' % '; '.join(probs), tl.site())
+        else:
+            # the Linear is not assembled here (a constructor / collect does it): `unfiltered` has decided what that constructor may do
+            ctx.check(1 in ctx.S.backslice(tl, [0]).params, R + '/linear/every-entry/depends', 'T-CARRY', tl.name, 'the result does not depend on the coefficient map', tl.site())
+            ctx.undecided(R + '/linear/every-entry', 'T-LOOPMUST', tl.site(), 'v1::Linear is not assembled in to_linear itself')
+        if terms:
+            probs = []
+            for bi, st in terms:
+                e = T.expr(tl, agg_field_operand(st, 'coefficient'), depth=12)
+                if e[0] == 'const' or _computed(e):
+                    probs.append('%s: Term.coefficient is not the listed value itself' % tl.site(bi))
+                elif not any(x[0] == 'call' and x[1] == 'next' for x in _spine(e)) and not (e[0] == 'place' and e[1] == 1):
+                    probs.append('%s: Term.coefficient does not come from an entry of the map' % tl.site(bi))
+                ei = T.expr(tl, agg_field_operand(st, 'id'), depth=12)
+                if any(x[0] == 'bin' for x in T.expr_walk(ei)) or ei[0] == 'const': probs.append('%s: Term.id is not the listed index itself' % tl.site(bi))
+            ctx.check(not probs, R + '/linear/entry-unchanged', 'T-CARRY', tl.name, '; '.join(probs), tl.site())
+        else:
+            ar = [tl.site(bi) for bi, st in tl.stmts() if st['rv']['k'] in ('bin', 'un') and st['rv'].get('ty') == 'f64']
+            ctx.check(not ar, R + '/linear/entry-unchanged/no-arithmetic', 'T-CARRY', tl.name, 'to_linear computes with the listed values at %s' % ar[:3], tl.site())
+            ctx.undecided(R + '/linear/entry-unchanged', 'T-CARRY', tl.site(), 'no v1::linear::Term is built in to_linear itself')
+    # the functions that pass the terms on (objective, constraints, wrap_function) must not hand them to something that removes entries either:
+    # here their own filters are legitimate (explicit zeros of the dense b0) and predicates such as `quad.is_zero()` compare without removing,
+    # so only removing / thinning calls inside the crate functions they call count
+    ev = []; n = 0
+    for suffix in ('qplib::convert::convert_objective', 'qplib::convert::convert_constraints', 'qplib::convert::wrap_function'):
+        fb = ctx.F.free_fn(suffix)
+        if fb is None: continue
+        n += 1; ev += drop_evidence(ctx, fb, cmp=False, skip_own=True)
+    if n: ctx.check(not ev, R + '/passed-on-unfiltered', 'T-LOOPMUST', 'qplib::convert', 'the terms are handed to a function that can remove entries: %s' % '; '.join(sorted(set(ev))[:4]))
+    tq = ctx.free_fn(R + '/quadratic/anchor', 'qplib::convert::to_quadratic')
+    if tq is not None:
+        ev = drop_evidence(ctx, tq)
+        ctx.check(not ev, R + '/quadratic/unfiltered', 'T-LOOPMUST', tq.name, 'a listed Q entry can be dropped depending on its value between the table and rows / columns / values: %s' % '; '.join(ev[:4]), tq.site(), evidence=ev[:8])
+        ctx.check(bool(find_aggregates(tq, 'v1::Quadratic')), R + '/quadratic/assembled-here', 'T-CARRY', tq.name, 'v1::Quadratic is not assembled in to_quadratic itself (a constructor may merge / drop entries)', tq.site())
+
+
 def sign_rules(ctx):
     """two-sided constraints c_l <= f(x) <= c_u.  Per side, inside the region guarded by `c != +-inf`:
        upper: f(x) - c_u <= 0   : constant -c_u, coefficients as they are, id i
@@ -1660,6 +1776,7 @@ def convert_rules(ctx):
     cover(ctx, R + '.cover', b, QF, exempt=STARTING)
     infinity_rules(ctx, b)
     half_rules(ctx)
+    terms_rules(ctx)
     sign_rules(ctx)
     # objective: default b0 over all variables, overridden by non-defaults; constant
     ob = helper_or_caller(ctx, R + '.b0/anchor', 'qplib::convert::convert_objective')
@@ -1712,8 +1829,7 @@ def convert_rules(ctx):
             for part, want_list in (('lower', 'lower_bounds'), ('upper', 'upper_bounds')):
                 e = T.expr(dv, d[part], depth=12)
                 if e[0] == 'const': probs.append('%s: Bound.%s is the constant %s' % (dv.site(bi), part, e[1][:20])); continue
-                if any(x[0] in ('bin', 'un') or (x[0] == 'call' and x[1] != 'next' and not _ELEMENT_OF.search(T.strip_generics_tail(x[2])) and not T.TRANSPARENT.search(T.strip_generics_tail(x[2])) and not _ITER_IDENTITY.search(T.strip_generics_tail(x[2])) and x[1] not in ('zip', 'enumerate', 'map'))
-                       for x in _spine(e)):
+                if _computed(e):
                     probs.append('%s: Bound.%s is computed, not taken over' % (dv.site(bi), part)); continue
                 src = source_list(ctx, dv, d[part], LISTS)
                 if src is None: unknown.append('%s.%s' % (dv.site(bi), part))
@@ -1796,6 +1912,16 @@ def _spine(e):
     return out
 
 
+def _computed(e):
+    """is the value computed (arithmetic, a non-transparent call) rather than taken over from a place / an iterator item?  The walk stops at the
+    `next` that delivers the item: what the iterator is made of is source_list's business."""
+    for x in _spine(e):
+        if x[0] == 'call' and x[1] == 'next': return False
+        if x[0] in ('bin', 'un'): return True
+        if x[0] == 'call' and not _ELEMENT_OF.search(T.strip_generics_tail(x[2])) and not T.TRANSPARENT.search(T.strip_generics_tail(x[2])): return True
+    return False
+
+
 def tree_at(tree, path):
     for k in path:
         if tree is None or tree[0] != 'tuple' or not k.isdigit() or int(k) >= len(tree[1]): return None
@@ -1842,4 +1968,4 @@ def enum_rows(ctx, b, ty, pick):
 def check(ctx):
     codes_rules(ctx); section_rules(ctx); errors_rules(ctx); convert_rules(ctx)
     ctx.floor('C19.codes', 15); ctx.floor('C19.sections', 39); ctx.floor('C19.convert.cover', 19); ctx.floor('C19.infinity', 3)
-    ctx.floor('C19.convert.half', 4); ctx.floor('C19.convert.sign', 15); ctx.floor('C19.convert.b0', 8); ctx.floor('C19.convert.wrap', 2); ctx.floor('C19.convert.vars', 4); ctx.floor('C19.vartypes', 3)
+    ctx.floor('C19.convert.half', 4); ctx.floor('C19.convert.sign', 15); ctx.floor('C19.convert.b0', 8); ctx.floor('C19.convert.wrap', 2); ctx.floor('C19.convert.vars', 4); ctx.floor('C19.vartypes', 3); ctx.floor('C19.convert.terms', 6)
